@@ -140,6 +140,13 @@ def fam_in(rnd, i, thorough, restart=False):
         b["procs"]["rd"]["big"] = rnd.choice(["read", "skip"])
     if restart:
         b["random"].update({"gens": [{"rd2": {"kind": "reader"}}], "pstop": 0.01, "pstopio": 0.06, "pstore": 0.0})
+    elif rnd.random() < 0.25:
+        # the broker's identifiers coincide with identifiers the client has in flight in the other direction: publishes
+        # of both levels whose acknowledgements are withheld, and publications numbered from 0x7fff / 0xbfff upwards
+        b["procs"]["v1"] = {"kind": "script", "ops": [{"m": rnd.choice(PERSISTED[:2]), "tag": 50 + k, "size": 8} for k in range(2)]}
+        b["random"].update({"mute": ["PUBACK", "PUBREC"], "inidbase": rnd.choice([0x7fff, 0xbfff])})
+        for m in b["random"]["inbound"]:
+            m["after"] = False
     return b
 
 
@@ -262,7 +269,7 @@ MC = {
     "mixreq": dict(script="ScriptMixReq", amax=2, emax=2, conns=2, dial=1, write=1, read=0, store=0, calls=4, k_quick=25, k_thorough=3),
 }
 MC_FOR = {
-    "C01": ["one", "q2"], "C03": ["q2"], "C05": ["two"], "C10": ["one", "mixreq"], "C12": ["close", "reqclose", "disc", "discreq", "close_b"], "C17": ["max1", "one"],
+    "C01": ["one", "q2"], "C03": ["q2", "seedwrap"], "C05": ["two"], "C10": ["one", "mixreq"], "C12": ["close", "reqclose", "disc", "discreq", "close_b"], "C17": ["max1", "one"],
     "C18": ["one", "req"], "C14": ["req", "close", "quit", "unsub"], "C08": ["mixreq", "two", "q12w2"], "C11": ["req", "pings", "quit", "unsub", "devF25", "req_b"],
     "C04": ["in22", "in", "inrestart"], "C07": ["in", "in22", "inrestart"], "C13": ["in"], "C02": ["restart", "restart2", "seedwrap", "seedrels"], "C16": ["damage", "damage3", "damage5", "damage24", "seedmix", "seedwrap"],
 }
@@ -407,7 +414,7 @@ def conformance(ctx, binary, names, per):
     reasons = {}
     for name in names:
         c = MC[name]
-        if name not in SCRIPTS or c.get("bad") or c.get("damage"):
+        if name not in SCRIPTS or c.get("bad") or c.get("damage") or c.get("initstore") or c.get("blocking"):
             continue
         script, script2, inmsgs = SCRIPTS[name]
         def mk(sc, reader):
